@@ -16,12 +16,22 @@
 (*  - notifications_trimmer.go:trimNotifications: nothing if the first     *)
 (*    stored batch is younger than the retention time, otherwise a binary  *)
 (*    search for the last expired batch and one range delete.              *)
+(*  - leader_controller.go:BecomeLeader on a node whose DB is behind its    *)
+(*    log (any follower: it learns the commit offset only with the next    *)
+(*    append; a node restarted before its DB caught up): the quorum        *)
+(*    tracker is created with the DB's commit offset, then                 *)
+(*    applyAllEntriesIntoDB applies the log tail to the DB; every applied  *)
+(*    entry stores its batch in the same atomic write, exactly as when it  *)
+(*    is applied by a leader that commits it (DoElect).                    *)
 (* The content of a batch is OxiaDb.tla's business (Apply(...).nf); here a  *)
 (* batch is its offset and its timestamp.                                  *)
 (*                                                                         *)
 (* ns = [n     : number of committed offsets (0 .. n-1),                   *)
 (*       ts    : timestamp of every committed offset,                      *)
 (*       kept  : offsets whose batch is stored,                            *)
+(*       tc    : commit offset the leader's quorum tracker reports (the    *)
+(*               offset of the empty first batch); n - 1, except after an  *)
+(*               election that replayed entries and until the next commit, *)
 (*       now   : clock,                                                    *)
 (*       open  : a stream is open,                                         *)
 (*       cur   : cursor of the dispatcher (offset sent last / start),      *)
@@ -34,12 +44,13 @@
 EXTENDS Integers, Sequences, FiniteSets, TLC
 
 CONSTANTS Retention,      \* retention time in clock units
-          MinusOneIsNone  \* see ResumeArg
+          MinusOneIsNone, \* see ResumeArg
+          ReplayNotifies  \* FALSE: the replay of the log tail at an election stores no batches (mutant)
 
 NoSeen == -2
 NoStart == -2
 
-NS0 == [n |-> 0, ts |-> <<>>, kept |-> {}, now |-> 0, open |-> FALSE, cur |-> -1, buf |-> <<>>,
+NS0 == [n |-> 0, ts |-> <<>>, kept |-> {}, tc |-> -1, now |-> 0, open |-> FALSE, cur |-> -1, buf |-> <<>>,
         seen |-> NoSeen, got |-> <<>>, pos |-> NoStart, lostok |-> {}]
 
 RECURSIVE SortAsc(_)
@@ -51,7 +62,7 @@ Pump(s) == IF s.open /\ s.buf = <<>> /\ s.cur + 1 <= s.n - 1
            ELSE s
 
 \* a write request is committed: its batch is stored in the same atomic batch, timestamp of the entry
-DoCommit(s) == Pump([s EXCEPT !.n = @ + 1, !.ts = Append(@, s.now), !.kept = @ \cup {s.n}])
+DoCommit(s) == Pump([s EXCEPT !.n = @ + 1, !.ts = Append(@, s.now), !.kept = @ \cup {s.n}, !.tc = s.n])
 
 DoClock(s) == [s EXCEPT !.now = @ + 1]
 
@@ -75,7 +86,7 @@ DoTrim(s) == LET T == TrimTarget(s) IN
 (* GetNotifications.  start = NoStart: no start offset given.  Returns the state and the      *)
 (* offset of the empty first batch (NoStart if none is sent).                                 *)
 DoSubscribe(s, start) ==
-    LET c == IF start = NoStart THEN s.n - 1 ELSE start
+    LET c == IF start = NoStart THEN s.tc ELSE start
         t == [s EXCEPT !.open = TRUE, !.cur = c, !.buf = <<>>,
                        !.seen = IF start = NoStart \/ s.seen = NoSeen THEN c ELSE @,
                        !.pos = IF s.pos = NoStart THEN c ELSE @]
@@ -88,6 +99,18 @@ DoSend(s) == LET o == s.buf[1] IN
 
 \* the stream ends (subscriber side or leader side); what was read and not sent is dropped
 DoDisconnect(s) == [s EXCEPT !.open = FALSE, !.buf = <<>>]
+
+(* Leader change.  The elected node holds the whole log (n entries) and its DB has applied all but the  *)
+(* last `lag` of them (0 <= lag <= n).  BecomeLeader creates the quorum tracker with the DB's commit     *)
+(* offset and then applies the log tail to the DB: each replayed entry stores its batch (key = offset,  *)
+(* timestamp of the entry).  An open stream ends.  Replicas apply the same entries with the same         *)
+(* timestamps and trim with the same retention: for the offsets the elected node had applied before,    *)
+(* its stored batches are those of the previous leader.  lag = 0 is a restart of the leader.            *)
+ReplayTail(s, lag) == (s.n - lag)..(s.n - 1)
+DoElect(s, lag) == [DoDisconnect(s) EXCEPT !.kept = (@ \ ReplayTail(s, lag)) \cup (IF ReplayNotifies THEN ReplayTail(s, lag) ELSE {}),
+                                           !.tc = s.n - 1 - lag]
+\* the leader controller is closed and re-created on its own log and DB (level with each other): nothing to replay
+DoRestart(s) == [DoDisconnect(s) EXCEPT !.tc = s.n - 1]
 
 \* what a subscriber passes when it connects again: the last offset it saw (the offset of the empty first
 \* batch, or the offset it started from, if no data batch has arrived yet).
